@@ -1122,3 +1122,78 @@ def normalise_small_forms(tree: ast.Module) -> int:
     T().visit(tree)
     ast.fix_missing_locations(tree)
     return total
+
+
+def inline_single_use_temps(tree: ast.Module) -> int:
+    """`t = E` immediately followed by a simple statement (or an `if` test) that reads `t` exactly once, `t` appearing nowhere
+    else in the function: read with `E` in the place of `t` (an explaining variable for an argument or an operand).  Not
+    across a comprehension / lambda boundary (E would be evaluated once per element), not for parameters, and not when E
+    builds a container that the next statement might keep under the name."""
+    total = 0
+    for f in [n for n in ast.walk(tree) if isinstance(n, (ast.FunctionDef, ast.AsyncFunctionDef))]:
+        params = {a.arg for a in f.args.posonlyargs + f.args.args + f.args.kwonlyargs}
+        changed = True
+        while changed:
+            changed = False
+            uses: Dict[str, int] = {}
+            for x in ast.walk(f):
+                if isinstance(x, ast.Name):
+                    uses[x.id] = uses.get(x.id, 0) + 1
+                elif isinstance(x, (ast.Global, ast.Nonlocal)):
+                    for nm in x.names:
+                        uses[nm] = uses.get(nm, 0) + 10
+            for owner in ast.walk(f):
+                for fld in ('body', 'orelse', 'finalbody'):
+                    blk = getattr(owner, fld, None)
+                    if not isinstance(blk, list) or len(blk) < 2:
+                        continue
+                    for i in range(len(blk) - 1):
+                        a, b = blk[i], blk[i + 1]
+                        if not (isinstance(a, ast.Assign) and len(a.targets) == 1 and isinstance(a.targets[0], ast.Name)):
+                            continue
+                        t = a.targets[0].id
+                        if t in params or uses.get(t, 0) != 2:
+                            continue
+                        if isinstance(a.value, (ast.Dict, ast.List, ast.Set, ast.ListComp, ast.DictComp, ast.SetComp, ast.GeneratorExp, ast.Lambda, ast.Yield, ast.Await)):
+                            continue
+                        if isinstance(b, (ast.Assign, ast.AugAssign, ast.AnnAssign, ast.Expr, ast.Return, ast.Raise, ast.Assert)):
+                            scope_roots = [b]
+                        elif isinstance(b, (ast.If, ast.While)):
+                            scope_roots = [b.test]
+                        else:
+                            continue
+                        # the single read, outside any nested scope
+                        hits = []
+                        def walk(n_, nested):
+                            for c_ in ast.iter_child_nodes(n_):
+                                ns = nested or isinstance(c_, (ast.Lambda, ast.ListComp, ast.SetComp, ast.DictComp, ast.GeneratorExp, ast.FunctionDef))
+                                if isinstance(c_, ast.Name) and c_.id == t and isinstance(c_.ctx, ast.Load):
+                                    hits.append((c_, ns))
+                                walk(c_, ns)
+                        for r_ in scope_roots:
+                            if isinstance(r_, ast.Name) and r_.id == t:
+                                hits.append((r_, False))
+                            walk(r_, False)
+                        if len(hits) != 1 or hits[0][1]:
+                            continue
+                        if isinstance(b, (ast.Assign, ast.AugAssign)) and any(isinstance(y, ast.Name) and y.id == t and isinstance(y.ctx, ast.Store) for y in ast.walk(b)):
+                            continue
+                        target = hits[0][0]
+
+                        class S(ast.NodeTransformer):
+                            def visit_Name(self, node):
+                                return a.value if node is target else node
+                        if isinstance(b, (ast.If, ast.While)):
+                            b.test = S().visit(b.test) if b.test is not target else a.value
+                        else:
+                            S().visit(b)
+                        del blk[i]
+                        total += 1
+                        changed = True
+                        break
+                    if changed:
+                        break
+                if changed:
+                    break
+    ast.fix_missing_locations(tree)
+    return total
